@@ -257,3 +257,319 @@ pub fn reset_hard(v: &Value) -> Value {
     let _ = std::fs::remove_dir_all(&dir);
     json!({"failed": failed})
 }
+
+/// K2: the real post_checkout_hook / post_switch_hook after a successful forced checkout / switch
+pub fn force_checkout(v: &Value) -> Value {
+    let (dir, _) = scratch_repo();
+    let git = |args: &[&str]| {
+        let o = std::process::Command::new("git")
+            .args(args)
+            .current_dir(&dir)
+            .env("GIT_AUTHOR_NAME", "v")
+            .env("GIT_AUTHOR_EMAIL", "v@v")
+            .env("GIT_COMMITTER_NAME", "v")
+            .env("GIT_COMMITTER_EMAIL", "v@v")
+            .output()
+            .unwrap();
+        assert!(o.status.success(), "git {:?}: {}", args, String::from_utf8_lossy(&o.stderr));
+        String::from_utf8_lossy(&o.stdout).trim().to_string()
+    };
+    std::fs::write(dir.join("f"), "one\n").unwrap();
+    git(&["add", "-A"]);
+    git(&["commit", "-q", "-m", "c1"]);
+    git(&["checkout", "-q", "-B", "work"]);
+    git(&["branch", "-f", "main"]);
+    let same = v["same"].as_bool().unwrap();
+    if !same {
+        std::fs::write(dir.join("f"), "one\ntwo\n").unwrap();
+        git(&["commit", "-q", "-am", "c2"]);
+    }
+    let head = git(&["rev-parse", "HEAD"]);
+    let mut repo = git_ai::git::find_repository_in_path(dir.to_str().unwrap()).expect("repo");
+    let wl = repo.storage.working_log_for_base_commit(&head);
+    let mut files: HashMap<String, Vec<LineAttribution>> = HashMap::new();
+    files.insert("f".into(), vec![LineAttribution::new(1, 1, "s1".into(), None)]);
+    wl.write_initial_attributions(files, HashMap::new()).unwrap();
+    let entry = WorkingLogEntry::new("f".into(), "b0".into(), vec![], vec![LineAttribution::new(2, 2, "s1".into(), None)]);
+    wl.write_all_checkpoints(&[Checkpoint::new(CheckpointKind::AiAgent, "d".into(), "ai".into(), vec![entry])]).unwrap();
+    std::fs::write(dir.join("f"), "one\npending ai line\n").unwrap();
+    let argv: Vec<String> = v["force_argv"].as_array().unwrap().iter().map(|a| a.as_str().unwrap().to_string()).collect();
+    // git's part (main is c1: the same commit as HEAD when `same`, another one otherwise)
+    let mut real: Vec<&str> = argv.iter().map(|s| s.as_str()).collect();
+    real.insert(1, "-q");
+    git(&real);
+    let new_head = git(&["rev-parse", "HEAD"]);
+    repo.pre_command_base_commit = Some(head.clone());
+    let parsed = git_ai::git::cli_parser::parse_git_cli_args(&argv);
+    let status = std::process::Command::new("true").status().unwrap();
+    let mut ctx = git_ai::commands::git_handlers::CommandHooksContext {
+        pre_commit_hook_result: None,
+        rebase_original_head: None,
+        rebase_onto: None,
+        fetch_authorship_handle: None,
+        stash_sha: None,
+        push_authorship_handle: None,
+        stashed_va: None,
+    };
+    if argv[0] == "checkout" {
+        git_ai::commands::hooks::checkout_hooks::post_checkout_hook(&parsed, &mut repo, status, &mut ctx);
+    } else {
+        git_ai::commands::hooks::switch_hooks::post_switch_hook(&parsed, &mut repo, status, &mut ctx);
+    }
+    let logs = dir.join(".git").join("ai").join("working_logs");
+    let mut failed: Vec<&str> = Vec::new();
+    if logs.join(&head).exists() || (new_head != head && logs.join(&new_head).exists()) {
+        failed.push("K2-forced-checkout-discards-pending-attribution");
+    }
+    let _ = std::fs::remove_dir_all(&dir);
+    json!({"failed": failed, "head_moved": new_head != head})
+}
+
+/// K2: the real pre_checkout_hook / pre_switch_hook before `--merge`: an agent's line is pending, a person typed a line
+/// above it without a checkpoint; the captured attribution must not claim the person's line
+pub fn merge_checkout(v: &Value) -> Value {
+    let (dir, _) = scratch_repo();
+    let git = |args: &[&str]| {
+        let o = std::process::Command::new("git")
+            .args(args)
+            .current_dir(&dir)
+            .env("GIT_AUTHOR_NAME", "v")
+            .env("GIT_AUTHOR_EMAIL", "v@v")
+            .env("GIT_COMMITTER_NAME", "v")
+            .env("GIT_COMMITTER_EMAIL", "v@v")
+            .output()
+            .unwrap();
+        assert!(o.status.success(), "git {:?}: {}", args, String::from_utf8_lossy(&o.stderr));
+        String::from_utf8_lossy(&o.stdout).trim().to_string()
+    };
+    git(&["config", "user.name", "v"]);
+    git(&["config", "user.email", "v@v"]);
+    std::fs::write(dir.join("f"), "base 1\nbase 2\n").unwrap();
+    git(&["add", "-A"]);
+    git(&["commit", "-q", "-m", "c1"]);
+    git(&["checkout", "-q", "-B", "work"]);
+    git(&["branch", "-f", "main"]);
+    let mut repo = git_ai::git::find_repository_in_path(dir.to_str().unwrap()).expect("repo");
+    let dirty = v["dirty"].as_bool().unwrap();
+    if dirty {
+        // the agent appends a line and reports it
+        std::fs::write(dir.join("f"), "base 1\nbase 2\nai 1\n").unwrap();
+        git_ai::commands::checkpoint::run(&repo, "v", CheckpointKind::AiAgent, false, false, true, Some(mock_agent_run(&dir)), false).unwrap();
+        // a person types a line above it; nobody reports that
+        std::fs::write(dir.join("f"), "base 1\nbase 2\nperson 1\nai 1\n").unwrap();
+    }
+    let argv: Vec<String> = v["merge_argv"].as_array().unwrap().iter().map(|a| a.as_str().unwrap().to_string()).collect();
+    let parsed = git_ai::git::cli_parser::parse_git_cli_args(&argv);
+    let mut ctx = git_ai::commands::git_handlers::CommandHooksContext {
+        pre_commit_hook_result: None,
+        rebase_original_head: None,
+        rebase_onto: None,
+        fetch_authorship_handle: None,
+        stash_sha: None,
+        push_authorship_handle: None,
+        stashed_va: None,
+    };
+    if argv[0] == "checkout" {
+        git_ai::commands::hooks::checkout_hooks::pre_checkout_hook(&parsed, &mut repo, &mut ctx);
+    } else {
+        git_ai::commands::hooks::switch_hooks::pre_switch_hook(&parsed, &mut repo, &mut ctx);
+    }
+    let mut failed: Vec<&str> = Vec::new();
+    let mut captured: Vec<(u32, u32, String)> = Vec::new();
+    let is_merge = argv.iter().any(|a| a == "-m" || a == "--merge");
+    match &ctx.stashed_va {
+        Some(va) => {
+            if let Some(las) = va.get_line_attributions("f") {
+                for la in las {
+                    captured.push((la.start_line, la.end_line, la.author_id.clone()));
+                    // line 3 is the person's, line 4 the agent's
+                    if la.author_id != "human" && la.start_line <= 3 && 3 <= la.end_line {
+                        failed.push("K2-merge-checkout-records-the-persons-edits-first");
+                    }
+                }
+            }
+        }
+        None => {
+            if is_merge && dirty {
+                failed.push("K2-merge-checkout-captures-pending-attribution");
+            }
+        }
+    }
+    let _ = std::fs::remove_dir_all(&dir);
+    json!({"failed": failed, "captured": captured})
+}
+
+fn mock_agent_run(dir: &std::path::Path) -> git_ai::commands::checkpoint_agent::agent_presets::AgentRunResult {
+    use git_ai::authorship::working_log::AgentId;
+    git_ai::commands::checkpoint_agent::agent_presets::AgentRunResult {
+        agent_id: AgentId { tool: "mock_ai".into(), id: "s1".into(), model: "m".into() },
+        agent_metadata: None,
+        checkpoint_kind: CheckpointKind::AiAgent,
+        transcript: None,
+        repo_working_dir: Some(dir.to_string_lossy().to_string()),
+        edited_filepaths: Some(vec!["f".to_string()]),
+        will_edit_filepaths: None,
+        dirty_files: None,
+    }
+}
+
+/// a concrete history: a person adds a line and stages it; an agent rewrites that line (reported, not staged);
+/// the index is committed.  Returns the sessions the note names for the committed line.
+pub fn staged_then_rewritten(_v: &Value) -> Value {
+    let (dir, _) = scratch_repo();
+    let git = |args: &[&str]| {
+        let o = std::process::Command::new("git")
+            .args(args)
+            .current_dir(&dir)
+            .env("GIT_AUTHOR_NAME", "v")
+            .env("GIT_AUTHOR_EMAIL", "v@v")
+            .env("GIT_COMMITTER_NAME", "v")
+            .env("GIT_COMMITTER_EMAIL", "v@v")
+            .output()
+            .unwrap();
+        assert!(o.status.success(), "git {:?}: {}", args, String::from_utf8_lossy(&o.stderr));
+        String::from_utf8_lossy(&o.stdout).trim().to_string()
+    };
+    git(&["config", "user.name", "v"]);
+    git(&["config", "user.email", "v@v"]);
+    std::fs::write(dir.join("f"), "base 1\nbase 2\n").unwrap();
+    git(&["add", "-A"]);
+    git(&["commit", "-q", "-m", "c1"]);
+    let parent = git(&["rev-parse", "HEAD"]);
+    let repo = git_ai::git::find_repository_in_path(dir.to_str().unwrap()).expect("repo");
+    std::fs::write(dir.join("f"), "base 1\nbase 2\nperson 1\n").unwrap();
+    git_ai::commands::checkpoint::run(&repo, "v", CheckpointKind::Human, false, false, true, None, false).unwrap();
+    git(&["add", "f"]);
+    std::fs::write(dir.join("f"), "base 1\nbase 2\nai rewrote this\n").unwrap();
+    git_ai::commands::checkpoint::run(&repo, "v", CheckpointKind::AiAgent, false, false, true, Some(mock_agent_run(&dir)), false).unwrap();
+    git(&["commit", "-q", "-m", "index only"]);
+    let commit = git(&["rev-parse", "HEAD"]);
+    let r = git_ai::authorship::post_commit::post_commit(&repo, Some(parent), commit.clone(), "v".to_string(), true);
+    let mut claimed: Vec<String> = Vec::new();
+    if let Ok((_, log)) = &r {
+        for fa in &log.attestations {
+            if fa.file_path == "f" {
+                for e in &fa.entries {
+                    if e.line_ranges.iter().any(|lr| lr.contains(3)) {
+                        claimed.push(e.hash.clone());
+                    }
+                }
+            }
+        }
+    }
+    let _ = std::fs::remove_dir_all(&dir);
+    json!({"ok": r.is_ok(), "committed_line_3": "person 1", "sessions_claiming_line_3": claimed})
+}
+
+/// K2: the real pre_reset_hook: an agent's line is pending, a person typed a line above it without a checkpoint;
+/// after the hook the working log must know the person's line (a Human checkpoint entry for the file)
+pub fn pre_reset(v: &Value) -> Value {
+    let (dir, _) = scratch_repo();
+    let git = |args: &[&str]| {
+        let o = std::process::Command::new("git")
+            .args(args)
+            .current_dir(&dir)
+            .env("GIT_AUTHOR_NAME", "v")
+            .env("GIT_AUTHOR_EMAIL", "v@v")
+            .env("GIT_COMMITTER_NAME", "v")
+            .env("GIT_COMMITTER_EMAIL", "v@v")
+            .output()
+            .unwrap();
+        assert!(o.status.success(), "git {:?}: {}", args, String::from_utf8_lossy(&o.stderr));
+        String::from_utf8_lossy(&o.stdout).trim().to_string()
+    };
+    git(&["config", "user.name", "v"]);
+    git(&["config", "user.email", "v@v"]);
+    std::fs::write(dir.join("f"), "base 1\n").unwrap();
+    git(&["add", "-A"]);
+    git(&["commit", "-q", "-m", "c1"]);
+    std::fs::write(dir.join("f"), "base 1\nbase 2\n").unwrap();
+    git(&["commit", "-q", "-am", "c2"]);
+    let head = git(&["rev-parse", "HEAD"]);
+    let mut repo = git_ai::git::find_repository_in_path(dir.to_str().unwrap()).expect("repo");
+    std::fs::write(dir.join("f"), "base 1\nbase 2\nai 1\n").unwrap();
+    git_ai::commands::checkpoint::run(&repo, "v", CheckpointKind::AiAgent, false, false, true, Some(mock_agent_run(&dir)), false).unwrap();
+    std::fs::write(dir.join("f"), "base 1\nbase 2\nperson 1\nai 1\n").unwrap();
+    let argv: Vec<String> = v["pre_reset_argv"].as_array().unwrap().iter().map(|a| a.as_str().unwrap().to_string()).collect();
+    let parsed = git_ai::git::cli_parser::parse_git_cli_args(&argv);
+    git_ai::commands::hooks::reset_hooks::pre_reset_hook(&parsed, &mut repo);
+    let wl = repo.storage.working_log_for_base_commit(&head);
+    let cks = wl.read_all_checkpoints().unwrap_or_default();
+    let humans = cks.iter().filter(|c| c.kind == CheckpointKind::Human && c.entries.iter().any(|e| e.file == "f")).count();
+    let mut failed: Vec<&str> = Vec::new();
+    if humans == 0 {
+        failed.push("K2-reset-records-the-persons-edits-first");
+    }
+    let _ = std::fs::remove_dir_all(&dir);
+    json!({"failed": failed, "checkpoints": cks.len(), "human_checkpoints_for_f": humans})
+}
+
+/// K2: {files: [..], stash_pathspec: text | null}: pending agent lines in every file, a real
+/// `git stash push [-- <pathspec>]`, the real post_stash_hook; which files the stash note lists
+pub fn stash_scope(v: &Value) -> Value {
+    let (dir, _) = scratch_repo();
+    let git = |args: &[&str]| {
+        let o = std::process::Command::new("git")
+            .args(args)
+            .current_dir(&dir)
+            .env("GIT_AUTHOR_NAME", "v")
+            .env("GIT_AUTHOR_EMAIL", "v@v")
+            .env("GIT_COMMITTER_NAME", "v")
+            .env("GIT_COMMITTER_EMAIL", "v@v")
+            .output()
+            .unwrap();
+        (o.status.success(), String::from_utf8_lossy(&o.stdout).trim().to_string(), String::from_utf8_lossy(&o.stderr).to_string())
+    };
+    git(&["config", "user.name", "v"]);
+    git(&["config", "user.email", "v@v"]);
+    let files: Vec<String> = v["files"].as_array().unwrap().iter().map(|x| x.as_str().unwrap().to_string()).collect();
+    for f in &files {
+        if let Some(p) = std::path::Path::new(f).parent() {
+            std::fs::create_dir_all(dir.join(p)).unwrap();
+        }
+        std::fs::write(dir.join(f), "base\n").unwrap();
+    }
+    git(&["add", "-A"]);
+    git(&["commit", "-q", "-m", "c1"]);
+    let mut repo = git_ai::git::find_repository_in_path(dir.to_str().unwrap()).expect("repo");
+    for f in &files {
+        std::fs::write(dir.join(f), "base\nai 1\nai 2\n").unwrap();
+    }
+    let mut run = mock_agent_run(&dir);
+    run.edited_filepaths = Some(files.clone());
+    git_ai::commands::checkpoint::run(&repo, "v", CheckpointKind::AiAgent, false, false, true, Some(run), false).unwrap();
+    let mut argv: Vec<String> = vec!["stash".into(), "push".into()];
+    let spec: Option<String> = if v["stash_pathspec"].is_null() { None } else { Some(String::from_utf8(crate::bytes_of(&v["stash_pathspec"])).unwrap()) };
+    if let Some(s) = &spec {
+        argv.push("--".into());
+        argv.push(s.clone());
+    }
+    let real: Vec<&str> = argv.iter().map(|s| s.as_str()).collect();
+    let (ok, _, err) = git(&real);
+    if !ok {
+        let _ = std::fs::remove_dir_all(&dir);
+        return json!({"stashed": false, "git_error": err});
+    }
+    let stashed: Vec<String> = files.iter().filter(|f| std::fs::read_to_string(dir.join(f)).map(|c| c == "base\n").unwrap_or(false)).cloned().collect();
+    let parsed = git_ai::git::cli_parser::parse_git_cli_args(&argv);
+    let ctx = git_ai::commands::git_handlers::CommandHooksContext {
+        pre_commit_hook_result: None,
+        rebase_original_head: None,
+        rebase_onto: None,
+        fetch_authorship_handle: None,
+        stash_sha: None,
+        push_authorship_handle: None,
+        stashed_va: None,
+    };
+    let status = std::process::Command::new("true").status().unwrap();
+    git_ai::commands::hooks::stash_hooks::post_stash_hook(&ctx, &parsed, &mut repo, status);
+    let (_, sha, _) = git(&["rev-parse", "stash@{0}"]);
+    let (has, note, _) = git(&["notes", "--ref=ai-stash", "show", &sha]);
+    let listed: Vec<String> = if has {
+        note.split("\n---").next().unwrap_or("").lines().filter(|l| !l.is_empty() && !l.starts_with(' ')).map(|l| l.trim_matches('"').to_string()).collect()
+    } else {
+        vec![]
+    };
+    let _ = std::fs::remove_dir_all(&dir);
+    json!({"stashed": true, "stashed_files": stashed, "listed": listed})
+}
